@@ -70,6 +70,23 @@ PROPS["C07"] = dict(
                  "porcupine timeouts (10 s) are counted as inconclusive, never reported"],
 )
 
+PROPS["C19"] = dict(
+    simulated=True,
+    level="exploration",
+    instrument=ENGINE_FILES,
+    budget=dict(quick=30, thorough=900),
+    rule="(a) sequential: histories of 3-14 reads (every lookup, with window / filter / LatestAnchor / page size+offset options, and Exist) and writes "
+         "through 1-3 handles of one graph obtained from memoization.New(memory.NewStore()); every read is repeated on the wrapped store and must deliver "
+         "the same sequence. (b) concurrent: one writer (1-3 AddTriples/RemoveTriples batches) and one or two readers (2-4 repeated reads each, through the "
+         "writer's handle or their own) under the seeded scheduler with yield points before every statement of the instrumented memoization and memory "
+         "copies; a read must answer like the wrapped store in one of the states it may observe (real-time bounds from the event sequence). "
+         "Non-trivial: (a) a read after a write, (b) a read overlapping a write with at least one scheduling decision; distinct = distinct histories x pick sequences",
+    components_real=["storage/memoization (real code, instrumented scratch copy)", "storage/memory (real code, instrumented scratch copy)"],
+    components_stub=["clients and drainers (harness tasks)", "seeded scheduler in a synctest bubble (x/sim)"],
+    assumptions=["a RemoveTriples batch may become visible triple by triple (C07 allows it); its intermediate states count as observable",
+                 "context cancellation inside the memoizer's select statements is not exercised (Go's select picks among ready cases with an unowned random source)"],
+)
+
 # ---------------------------------------------------------------------------
 # Texts for MANIFEST.json (level claimed, trusted base, technique)
 MANIFEST_TEXT = {}
@@ -92,3 +109,7 @@ MANIFEST_TEXT["C07"] = dict(
     text="seeded search over interleavings of concurrent clients at statement granularity with linearizability checking of every recorded history and invariants evaluated between scheduler steps; many short diverse runs, each exactly replayable from its tape",
     note="trusted base: x/sim scheduler + testing/synctest quiescence, the go/ast instrumenter (its pass-through self-test runs the repository's own tests on the instrumented copy), porcupine v1.3.0, the set model; data races inside a single statement are not reachable",
     technique="deterministic simulation: seeded cooperative scheduler over real goroutines (synctest bubble), AST-inserted yield points and sim mutexes in a scratch copy, porcupine linearizability check, schedule+workload shrinking, replay from tape")
+MANIFEST_TEXT["C19"] = dict(
+    text="seeded exploration of read/write histories through one or several handles (lockstep comparison with the wrapped store) and of one-writer/one-or-two-reader interleavings at statement granularity inside the memoizer",
+    note="trusted base: x/sim scheduler, instrumenter, the lookup reference definition; single writer only (as the property states)",
+    technique="deterministic simulation: seeded scheduler over the instrumented memoization+memory copies, lockstep refinement against the wrapped store, real-time-bounded state matching, shrinking, replay from tape")
